@@ -30,7 +30,7 @@ PARSE = 'xdoctest.parser.DoctestParser.parse'
 
 def run(ctx):
     for fn in (r1_one_namespace, r1b_populated_once, r2_one_exec_per_part, r3_capture, r3b_capture_logs_on_every_exit, r4_coroutine_driven, r5_tab_expansion,
-               r6_contiguous_slices, r7_decorated_statement_starts, r8_prompt_lines_are_source):
+               r6_contiguous_slices, r7_decorated_statement_starts, r8_prompt_lines_are_source, r9_single_statement_modes_are_cut):
         ctx.rep.rule(fn, ctx)
 
 
@@ -908,6 +908,51 @@ def _is_sorted_set_with_zero(v):
     return False
 
 
+def r9_single_statement_modes_are_cut(ctx, rule='C01.R9'):
+    """TABLE-AGREE between the producer of the compile-mode hint (_locate_ps1_linenos) and its consumer (_package_chunk): `eval` and `single`
+    compile exactly one statement, so for every hint other than 'exec' the chunk's last statement must be cut off into a part of its own before the
+    hint is stored as that part's compile mode -- otherwise a multi-statement chunk is handed to compile(..., 'single') and nothing of it runs"""
+    rep = ctx.rep
+    fp = ctx.func('xdoctest.parser.DoctestParser._locate_ps1_linenos')
+    fc = ctx.func('xdoctest.parser.DoctestParser._package_chunk')
+    modes = {x.value.value for x in ast.walk(fp.node) if isinstance(x, ast.Assign) and len(x.targets) == 1 and is_name(x.targets[0], 'mode_hint')
+             and isinstance(x.value, ast.Constant) and isinstance(x.value.value, str)}
+    need({'exec', 'eval'} <= modes, '%s: the mode hints produced by _locate_ps1_linenos were not recognised: %s' % (rule, sorted(modes)))
+    rep.note('mode_hints', sorted(modes))
+    g = ctx.cfg(fc)
+    dom = ctx.dom(g, g.entry)
+    # the cut: an assignment from ps1_linenos[-1]
+    cuts = [n for n in g.nodes if n.kind == 'stmt' and not n.dup and isinstance(n.ast, ast.Assign) and isinstance(n.ast.value, ast.Subscript)
+            and isinstance(n.ast.value.slice, ast.UnaryOp) and isinstance(n.ast.value.slice.op, ast.USub) and isinstance(n.ast.value.slice.operand, ast.Constant)
+            and n.ast.value.slice.operand.value == 1 and is_name(n.ast.value.value, 'ps1_linenos')]
+    rep.floor(rule, 'cuts before the last statement of a chunk', len(cuts), 1)
+    # the hint variable of the consumer
+    hv = None
+    for x in walk_scope(fc.node):
+        if isinstance(x, ast.Assign) and isinstance(x.targets[0], ast.Tuple) and isinstance(x.value, ast.Call) and isinstance(x.value.func, ast.Attribute) and x.value.func.attr == '_locate_ps1_linenos':
+            hv = x.targets[0].elts[1].id if len(x.targets[0].elts) == 2 and isinstance(x.targets[0].elts[1], ast.Name) else None
+    need(hv is not None, '%s: the mode hint is not unpacked from _locate_ps1_linenos in _package_chunk' % rule)
+
+    def truth(e, m):
+        if isinstance(e, ast.Compare) and len(e.ops) == 1 and is_name(e.left, hv):
+            c, op = e.comparators[0], e.ops[0]
+            if isinstance(op, (ast.In, ast.NotIn)) and isinstance(c, (ast.Set, ast.Tuple, ast.List)) and all(isinstance(y, ast.Constant) for y in c.elts):
+                return (m in [y.value for y in c.elts]) == isinstance(op, ast.In)
+            if isinstance(op, (ast.Eq, ast.NotEq)) and isinstance(c, ast.Constant):
+                return (m == c.value) == isinstance(op, ast.Eq)
+        return None
+    for cn in cuts:
+        facts = [fa for fa in graph.guard_facts(dom, cn) if any(is_name(x, hv) for x in ast.walk(fa.expr))]
+        for m in sorted(modes - {'exec'}):
+            vals = [truth(fa.expr, m) for fa in facts]
+            need(None not in vals, '%s: a condition on the mode hint was not recognised: %s' % (rule, fmt_facts(facts)))
+            ok = all(v == fa.polarity for v, fa in zip(vals, facts))
+            rep.ob(rule, ctx.loc(fc, cn.ast), "hint '%s' -> last statement cut off (%s)" % (m, fmt_facts(facts) or 'unconditional'), ok,
+                   'the part compiled in this mode holds exactly the last statement' if ok else
+                   "a chunk whose hint is '%s' is not cut before its last statement, yet the hint becomes the compile mode of the whole remaining part: "
+                   "compile(..., '%s') accepts a single statement only, so a multi-statement chunk with a want fails to compile and none of it runs" % (m, m), anchor=fc.qualname)
+
+
 # ---------------------------------------------------------------------------
 from ..selftest import fire, silent      # noqa: E402
 
@@ -915,6 +960,8 @@ DE = 'xdoctest/doctest_example.py'
 PA = 'xdoctest/parser.py'
 US = 'xdoctest/utils/util_stream.py'
 VARIANTS = [
+    fire('single-mode-chunks-not-cut', 'C01.R9', ('xdoctest/parser.py', "            if want_lines and mode_hint in {'eval', 'single'}:\n", "            if want_lines and mode_hint == 'eval':\n")),
+    silent('cut-for-every-non-exec-hint', ('xdoctest/parser.py', "            if want_lines and mode_hint in {'eval', 'single'}:\n", "            if want_lines and mode_hint != 'exec':\n")),
     fire('decorator-line-added-not-replacing', 'C01.R7', (PA, "                else:\n                    lineno = node.lineno - 1\n                ps1_linenos.append(lineno)\n", "                    ps1_linenos.append(lineno)\n                lineno = node.lineno - 1\n                ps1_linenos.append(lineno)\n")),
     fire('exit-skips-log-on-error', 'C01.R3b', (US, "    def __exit__(self, type_, value, trace):\n        if self.enabled:\n", "    def __exit__(self, type_, value, trace):\n        if trace is not None:\n            self.stop()\n            return False\n        if self.enabled:\n")),
     fire('read-position-not-advanced', 'C01.R3b', (US, "        self._pos = self.cap_stdout.tell()\n", "")),
